@@ -2,6 +2,7 @@
 //! terms, for the Coq side to check (see /verif/DESIGN.md sections 1 and 3).
 #![allow(dead_code)]
 mod c01;
+mod c01deep;
 mod c02;
 mod c03;
 mod c04;
